@@ -18,7 +18,7 @@ ASSUMPTIONS = [
     "fidelity() uses scipy.linalg.sqrtm and is not encodable: outside the claim",
 ]
 BOUNDS = {
-    "quick": "n = 1, 2 qubits (and n = 3 with an empty base circuit); base circuits: empty, a symbolic single-qubit unitary, the post-selected CNOT and the heralded CZ from the library (ancilla modes present)",
+    "quick": "n = 1, 2 qubits (and n = 3 with an empty base circuit); base circuits: empty, a symbolic single-qubit unitary (also added to the base circuit only after the StateTomography object was created), the post-selected CNOT and the heralded CZ from the library (ancilla modes present)",
     "thorough": "n = 3 (27 circuits, 64x64 linear forms) with an empty base and with CCZ",
 }
 OUTSIDE = "fidelity values (sqrtm); finite-shot statistics; n > 3"
@@ -46,7 +46,7 @@ def _rho(ctx, dim):
 
 def _base(ctx, n, kind):
     lw = ctx.lw
-    if kind == "empty":
+    if kind in ("empty", "unitary-late"):
         return lw.Circuit(2 * n)
     if kind == "unitary":
         c = lw.Circuit(2 * n)
@@ -159,6 +159,14 @@ def h_state_tomography(ctx, n, kind):
         return out
 
     tomo = lw.tomography.StateTomography(n, base, experiment)
+    if kind == "unitary-late":
+        # the base circuit is completed after the tomography object was created: the state the
+        # base circuit prepares is the state of the circuit as it is when process() runs
+        base.add(lw.Unitary(ctx.unitary2("B")), 0)
+        if n > 1:
+            base.bs(2, reflectivity=ctx.real("rb", 0, 1))
+        Ub = base.U_full
+        obs0 = _observe(base)
     got = tomo.process()
     ctx.check(calls == [3 ** n], "callback-called-once-with-3^n-circuits", {"calls": calls})
     ctx.check(len(set(settings_seen)) == 3 ** n and set(settings_seen) == set(itertools.product("XYZ", repeat=n)), "one-circuit-per-measurement-setting")
@@ -176,6 +184,7 @@ def h_state_tomography(ctx, n, kind):
 def harnesses(tier):
     cases = [dict(n=1, kind="empty"), dict(n=1, kind="unitary"), dict(n=2, kind="empty"), dict(n=2, kind="unitary"), dict(n=2, kind="cnot"), dict(n=2, kind="cz_heralded")]
     cases.append(dict(n=3, kind="empty"))
+    cases += [dict(n=1, kind="unitary-late"), dict(n=2, kind="unitary-late")]
     cases += [dict(n=1, kind=k) for k in ("direct-herald-first", "direct-herald-middle", "direct-herald-last")] + [dict(n=2, kind="direct-herald-middle")]
     if tier != "quick":
         cases += [dict(n=3, kind="ccz")]
